@@ -13,7 +13,7 @@ func init() { registry["C02"] = propC02 }
 
 func propC02() *Property {
 	return &Property{
-		ID: "C02",
+		ID:          "C02",
 		Explanation: "Static provenance rules: the pairing (document, URL that served it) and (object, validated id) is shown to stay intact from the socket to the item constructors. Decided: (R1) every call of an item constructor receives (object, id) as results #0/#1 of one client.FetchUnknown call with its error checked, or the parentObject/parentIdentifier pair stored from such a call under parentErr == nil; (R2) every source handed to FetchUnknown traces back to nil (user input) or to the id field of an item — which is stored only from the constructor's validated id — and inside the constructors embedded values are taken from the constructor's own object and paired with its own id; (R3) on every acyclic path of FetchUnknown to a success return (phi operands resolved along the path) the returned id is nil, or it is the id read from the returned object and the path knows that the object's paired source (the source parameter for embedded input, result #1 of the same FetchURL call for fetched input) is non-nil and has the same Host as the id; (R4) jtp.Get reports its own URL as source on success (C03.R1) and forwards triples unchanged; (R5) client.FetchURL returns the three fields of one bundle built from one jtp.Get call; (R6) there is no side door: jtp.Get, FetchURL and FetchFromFile are called only from their documented callers. Not decided: end-to-end behaviour on multi-host worlds, library URL semantics (Host normalisation, case).",
 		Assumptions: []string{"singleflight.Group.Do returns the value produced by the closure for the same key", "url.URL.Host of a parsed URL is the authority that was dialled"},
 		Rules: []Rule{
@@ -486,16 +486,12 @@ func c02R5(c *Ctx) {
 		var from ssa.Value
 		okR := true
 		for i, n := range []string{"item", "source", "err"} {
-			v := ret.Results[i]
-			if ct, ok := v.(*ssa.ChangeType); ok {
-				v = ct.X
-			}
-			fld, ok := v.(*ssa.Field)
-			if !ok || fieldOf(fld).Name() != n {
+			fbase, fname2, ok := fieldRead(ret.Results[i])
+			if !ok || fname2 != n {
 				okR = false
 				continue
 			}
-			ta, ok := fld.X.(*ssa.TypeAssert)
+			ta, ok := fbase.(*ssa.TypeAssert)
 			if !ok {
 				okR = false
 				continue
@@ -625,7 +621,7 @@ func c02R4(c *Ctx) {
 		switch {
 		case isNilConst(doc) && isNilConst(src):
 		case isNilConst(er):
-			c.check(src == ssa.Value(g.link), fname+"/success-source", P.InstrPos(ret), fname, "a fetched document is attributed to the URL of the response that carried it", "the source reported with a fetched document is not the URL this frame requested")
+			c.check(unwrapLoad(src) == ssa.Value(g.link), fname+"/success-source", P.InstrPos(ret), fname, "a fetched document is attributed to the URL of the response that carried it", "the source reported with a fetched document is not the URL this frame requested")
 		default:
 			kind, why := c03Forwarded(g, ret)
 			c.check(kind != "", fname+"/forwarded", P.InstrPos(ret), fname, "forwards the intact triple of "+kind, "document, source and error returned together do not come from one fetch: "+why)
@@ -669,13 +665,13 @@ func idReaderParam(P *Program, fn *ssa.Function, seen map[*ssa.Function]bool) in
 				return -1
 			}
 			for i, p := range fn.Params {
-				if call.Call.Args[0] == ssa.Value(p) {
+				if unwrapLoad(call.Call.Args[0]) == ssa.Value(p) {
 					k = i
 				}
 			}
 		} else if inner := idReaderParam(P, call.Call.StaticCallee(), seen); inner >= 0 && inner < len(call.Call.Args) {
 			for i, p := range fn.Params {
-				if call.Call.Args[inner] == ssa.Value(p) {
+				if unwrapLoad(call.Call.Args[inner]) == ssa.Value(p) {
 					k = i
 				}
 			}
